@@ -369,6 +369,42 @@ func runC06(r *core.Run) {
 		lines = append(lines, core.JSON(ev))
 		lits = append(lits, strings.TrimSuffix(strings.TrimPrefix(sql, "SELECT "), " AS r;")+" = "+cells[0].Text)
 	}
+	// datetimes far from today (before 1678 and after 2262 a nanosecond count does not fit 64 bits): two datetimes in
+	// any spelling compare as instants; the harness passes their ranks in chronological order (wincmp on ranks)
+	dts := []string{"0001-01-01 00:00:00", "1000-06-15 12:00:00", "1677-09-21 00:12:43", "1677-09-21 00:12:44", "1678-01-01 00:00:00", "1969-12-31 23:59:59", "1970-01-01 00:00:00",
+		"2020-02-29 10:00:00", "2262-04-11 23:47:16", "2262-04-11 23:47:17", "2263-01-01 00:00:00", "9999-12-31 23:59:59"}
+	dspell := func(k int) string {
+		t := dts[k]
+		switch r.Rand.Intn(4) {
+		case 0:
+			return "'" + t + "'"
+		case 1:
+			return "DATETIME('" + t + "')"
+		case 2:
+			return "'" + strings.Replace(t, " ", "T", 1) + "Z'"
+		}
+		if strings.HasSuffix(t, " 00:00:00") {
+			return "'" + strings.TrimSuffix(t, " 00:00:00") + "'"
+		}
+		return "'" + t + "'"
+	}
+	for i := 0; i < n/6; i++ {
+		ka, kb := r.Rand.Intn(len(dts)), r.Rand.Intn(len(dts))
+		a, b := dspell(ka), dspell(kb)
+		sql := fmt.Sprintf("SELECT (%[1]s = %[2]s) AS c1, (%[1]s <> %[2]s) AS c2, (%[1]s < %[2]s) AS c3, (%[1]s <= %[2]s) AS c4, (%[1]s > %[2]s) AS c5, (%[1]s >= %[2]s) AS c6, (%[2]s = %[1]s) AS d1, (%[2]s <> %[1]s) AS d2, (%[2]s < %[1]s) AS d3, (%[2]s <= %[1]s) AS d4, (%[2]s > %[1]s) AS d5, (%[2]s >= %[1]s) AS d6;", a, b)
+		cells, e := evalRow(p, sql)
+		if e != "" || len(cells) != 12 {
+			r.Violation("values:random-eval-error:"+e, sql+" fails: "+e, map[string]interface{}{"a": a, "b": b})
+			continue
+		}
+		var ab, ba []string
+		for k := 0; k < 6; k++ {
+			ab = append(ab, ternOf(cells[k]))
+			ba = append(ba, ternOf(cells[6+k]))
+		}
+		lines = append(lines, core.JSON(map[string]interface{}{"kind": "wincmp", "da": ka, "db": kb, "ab": ab, "ba": ba}))
+		lits = append(lits, a+" ? "+b+" (datetimes)")
+	}
 	r.Coverage["big_integer_window_events"] = nbig
 	res := r.RunTLC(core.TLCOpts{Module: "ValuesTrace", Cfg: "ValuesTrace.cfg", Workers: 1, Timeout: 10 * time.Minute, KeepOut: true,
 		Texts: map[string]string{"trace.ndjson": strings.Join(lines, "\n") + "\n"}})
